@@ -279,7 +279,7 @@ def make_builder(name, present):
         "MetadataRequest": lambda: (["t"], False if "PNoAutoTopicCreation" in p else None),
         "ProduceRequest": lambda: (tid, 1, 1000, [("t", [(0, b"records")])]),
         "FetchRequest": lambda: (100, 1, 1000, iso, [("t", [(0, 7, 100)])], "rack-a" if "PRackId" in p else ""),
-        "OffsetRequest": lambda: (-1, iso, [("t", [(0, 1234567 if "PTimestampSearch" in p else -1)])]),
+        "OffsetRequest": lambda: (-1, iso, offset_topics(1234567 if "PTimestampSearch" in p else -1)),
         "OffsetCommitRequest": lambda: ("g", 1, "m", -1, [("t", [(0, 5, "meta")])]),
         "OffsetFetchRequest": lambda: ("g", None if "PPartitionsOmitted" in p else [("t", [0])]),
         "JoinGroupRequest": lambda: ("g", 1000, 2000, "m", "inst-1" if "PGroupInstanceId" in p else None,
@@ -298,6 +298,27 @@ def make_builder(name, present):
     if name not in args:
         raise KeyError(f"no argument recipe for builder {name}")
     return cls(*args[name]())
+
+
+_SHAPE = [0]
+_SHAPE_RNG = __import__("random").Random(11)
+MULTI = [False]      # set by negotiate(): vary the request shape (golden() compares bytes of the fixed shape)
+
+
+def offset_topics(ts):
+    """ListOffsets topics with the (possibly real) timestamp at different places of a multi-topic request: the
+    builder's guard has to look at every partition of every topic"""
+    if not MULTI[0]:
+        return [("t", [(0, ts)])]
+    _SHAPE[0] += 1
+    k = _SHAPE_RNG.randrange(4)         # (a fixed cycle would give one combination always the same shape)
+    if k == 0:
+        return [("t", [(0, ts)])]
+    if k == 1:
+        return [("t", [(0, ts), (1, -1)]), ("u", [(0, -1)])]
+    if k == 2:
+        return [("t", [(0, -1)]), ("u", [(0, -2), (1, ts)])]
+    return [("a", [(0, -1)]), ("t", [(0, ts)]), ("z", [])]
 
 
 # marker values: where a present parameter must be found in the decoded request
@@ -369,6 +390,7 @@ def adv_list(maxv):
 
 def negotiate(reqs, maxv):
     out = {}
+    MULTI[0] = True
     for r in reqs:
         name = r["builder"]
         rows = []
@@ -385,6 +407,7 @@ def negotiate(reqs, maxv):
                 row.append(outcome(b, versions, combo))
             rows.append(row)
         out[name] = rows
+    MULTI[0] = False
     return out
 
 
@@ -394,7 +417,10 @@ def golden(reqs):
     out = []
     for r in reqs:
         try:
+            # where the request must be refused (a timestamp search on a v0-only broker) the shape is varied too
+            MULTI[0] = "PTimestampSearch" in r["present"] and r["ver"] == 0
             b = make_builder(r["builder"], set(r["present"]))
+            MULTI[0] = False
             st = b.prepare({b.API_KEY: (r["ver"], r["ver"])})
             hdr = st.build_request_header(correlation_id=77, client_id="c11")
             out.append({"cls": type(st).__name__, "hdr": hdr.encode().hex(), "body": st.encode().hex(),
